@@ -330,7 +330,32 @@ def quirks(src, strip_comments, fn_body):
             purges = False
         else:
             notes.append("register_watch / get_shard: expiry test, removal, mark before the registration: %s / %s - not uniform" % (s1, s2))
-    return {"q": (per_db, rewatch, purges), "recognised": not notes, "notes": notes}
+    # UNWATCH between MULTI and EXEC: queued (should_queue_command does not exempt it) or run at once
+    sq = fn_body(t, "should_queue_command")
+    unwatch_queued = False
+    m2 = re.search(r"!\s*matches!\s*\(\s*command\s*,([^)]*)\)", sq or "")
+    if not m2:
+        notes.append("should_queue_command: `!matches!(command, ...)` not found")
+    else:
+        exempt = re.findall(r'"([A-Z]+)"', m2.group(1))
+        if not {"MULTI", "EXEC", "DISCARD", "WATCH"} <= set(exempt) or set(exempt) - {"MULTI", "EXEC", "DISCARD", "WATCH", "UNWATCH"}:
+            notes.append("should_queue_command exempts %s" % exempt)
+        else:
+            unwatch_queued = "UNWATCH" not in exempt
+    return {"q": (per_db, rewatch, purges, unwatch_queued), "recognised": not notes, "notes": notes}
+
+
+def arity_guard(src, strip_comments, fn_body):
+    """Does process_frame refuse MULTI / EXEC / DISCARD / UNWATCH with surplus arguments BEFORE it handles them
+    (`matches!(command.as_str(), "MULTI" | "EXEC" | "DISCARD" | "UNWATCH") && parts.len() != 1` followed by a return of an
+    error, ahead of the `"MULTI" =>` arm)?"""
+    sv = strip_comments(src("network/server.rs"))
+    pf = fn_body(sv, "process_frame")
+    if pf is None:
+        return False
+    g = re.search(r'matches!\s*\(\s*command\s*\.\s*as_str\s*\(\s*\)\s*,([^)]*)\)\s*&&\s*parts\s*\.\s*len\s*\(\s*\)\s*!=\s*1\s*\{\s*return\s+Ok\s*\(\s*RespFrame::error', pf)
+    arm = re.search(r'"MULTI"\s*=>', pf)
+    return bool(g and arm and g.start() < arm.start() and {"MULTI", "EXEC", "DISCARD", "UNWATCH"} <= set(re.findall(r'"([A-Z]+)"', g.group(1))))
 
 
 def key_is_bytes(src, strip_comments, fn_body):
@@ -491,8 +516,12 @@ def generate(src, strip_comments, fn_body, header, repo_src=None):
     lines.append("/-- How the watch list is kept (src/storage/commands/transactions.rs, Server::handle_exec):")
     lines.append("    `perDb` = entries are keyed by (database, key) and checked / unregistered there;")
     lines.append("    `rewatchKeeps` = WATCH of an already watched key keeps the first baseline;")
-    lines.append("    `watchPurges` = StorageEngine::register_watch drops (and marks) an expired stored value first. -/")
-    lines.append("def watchQ : Ferrous.Watch.Q := ⟨%s, %s, %s⟩" % tuple("true" if x else "false" for x in q["q"]))
+    lines.append("    `watchPurges` = StorageEngine::register_watch drops (and marks) an expired stored value first;")
+    lines.append("    `unwatchQueued` = should_queue_command does not exempt UNWATCH: inside MULTI it is queued. -/")
+    lines.append("def watchQ : Ferrous.Watch.Q := ⟨%s, %s, %s, %s⟩" % tuple("true" if x else "false" for x in q["q"]))
+    lines.append("")
+    lines.append("/-- process_frame refuses MULTI / EXEC / DISCARD / UNWATCH with surplus arguments before it handles them. -/")
+    lines.append("def txArityGuard : Bool := %s" % ("true" if arity_guard(src, strip_comments, fn_body) else "false"))
     lines.append("")
     lines.append("/-- Did the translator recognise each of the three shapes?  When not, the switch above has its pessimistic")
     lines.append("    value (so that everything still elaborates and the dynamic search runs) and the table theorem")
